@@ -11,6 +11,7 @@ import PolyVerif.Lemmas.MeshCorners2
 import PolyVerif.Lemmas.MeshAppend
 import PolyVerif.Lemmas.MeshWeld
 import PolyVerif.Lemmas.MeshAllRef
+import PolyVerif.Lemmas.MeshSplit
 import PolyVerif.Lemmas.MeshTransformsWF
 
 namespace PolyVerif.C03
@@ -162,12 +163,26 @@ theorem split_rejects_non_triangle (m : MeshVal α) (h : 2 ≤ m.materials.lengt
   · rename_i hm; rw [hm] at h; simp at h
   · simp [ht]
 
-/-- The full contract (one part per distinct material in order of first appearance, the parts
-    partition the triangles by material, corners kept exactly) as one decidable predicate: evaluated
-    by the oracle `c03.holds.split_spec` on every implementation output, and on the model below.
-    NOT proved for all inputs (the loop `advanceMat` is not yet related to the written-out ranges);
-    what is proved: `split_single`, `split_rejects_non_triangle`, every part is well-formed and
-    consists of whole triangles of the input (`C02.splitOnMaterials_wf`). -/
+/-- **Split partitions the triangles by material.** With two or more ranges, when the split succeeds:
+    the ranges, written out one after another, cover every triangle (`assign` = material of each
+    triangle); every part is exactly the sub-mesh of the triangles of one material — in order, every
+    corner's attributes kept, under one range counting them — and every material that occurs has
+    its part. (If the ranges run out the model returns `none`, where the Go loop panics.) -/
+theorem split_partition [DecidableEq α] {m : MeshVal α} {parts : List (MeshVal α)} (h : WF m)
+    (h2 : 2 ≤ m.materials.length) (hs : m.splitOnMaterials = some parts) :
+    ((matOfTris m.materials).take (triples m.indices).length).length = (triples m.indices).length ∧
+    (∀ p ∈ parts, ∃ μ, PartSpec m ((matOfTris m.materials).take (triples m.indices).length) p μ) ∧
+    (∀ μ ∈ (matOfTris m.materials).take (triples m.indices).length,
+        ∃ p ∈ parts, PartSpec m ((matOfTris m.materials).take (triples m.indices).length) p μ) := by
+  obtain ⟨assign, ha, hl, h1, h2'⟩ := split_parts h h2 hs
+  have := assignLoop_eq_take ha
+  subst this
+  exact ⟨hl, h1, h2'⟩
+
+/-- The full contract as one decidable predicate (`SplitSpec`: additionally one part per distinct
+    material, *in order of first appearance*, the first range's material first even when it has no
+    triangle): evaluated by the oracle `c03.holds.split_spec` on every implementation output, and on the
+    model below. The order / multiplicity of the parts is the part NOT proved for all inputs. -/
 def split_full : Prop :=
   ∀ (α : Type) [DecidableEq α] (m : MeshVal α) (parts : List (MeshVal α)),
     WF m → m.splitOnMaterials = some parts → SplitSpec m parts
@@ -240,6 +255,49 @@ theorem removeNullFaces_spec [DecidableEq α] {m m' : MeshVal α} (h : WF m) {k 
 example : ∃ m', sample.removeNullFaces ⟨3, "Position"⟩ (fun a _ _ => a == 2) = some m' ∧
     m'.corners = [(⟨3, "Position"⟩, [some 12, some 10, some 13]), (⟨1, "Class"⟩, [some 22, some 20, some 23])] :=
   ⟨_, rfl, by decide⟩
+
+/-! ## What is rejected (error branches) -/
+
+/-- the filters reject exactly: not a point cloud, or the attribute is missing -/
+theorem filterAttr_rejects (m : MeshVal α) (k : AttrKey) (p : α → Bool) :
+    m.filterAttr k p = none ↔ (m.topology ≠ .point ∨ m.attr? k = none) := by
+  unfold filterAttr
+  split
+  · split <;> simp_all
+  · simp_all
+
+/-- crop rejects exactly: not a point cloud, or the attribute is missing -/
+theorem crop_rejects (m : MeshVal α) (k : AttrKey) (inside : α → Bool) :
+    m.crop k inside = none ↔ (m.topology ≠ .point ∨ m.attr? k = none) := by
+  unfold crop
+  split
+  · split <;> simp_all
+  · simp_all
+
+/-- degenerate-face removal rejects exactly: not a triangle mesh, or the attribute is missing -/
+theorem removeNullFaces_rejects (m : MeshVal α) (k : AttrKey) (keep : Nat → Nat → Nat → Bool) :
+    m.removeNullFaces k keep = none ↔ (m.topology ≠ .triangle ∨ m.hasAttr k = false) := by
+  unfold removeNullFaces
+  split
+  · rename_i h
+    dsimp only
+    split <;> simp [h.1, h.2]
+  · rename_i h
+    simp only [true_iff]
+    by_cases ht : m.topology = .triangle
+    · right
+      cases hh : m.hasAttr k
+      · rfl
+      · exact absurd ⟨ht, hh⟩ h
+    · exact Or.inl ht
+
+/-- weld rejects exactly: not a triangle mesh, or the attribute is missing -/
+theorem weld_rejects {K : Type} [DecidableEq K] (m : MeshVal α) (k : AttrKey) (key : α → K) :
+    m.weld k key = none ↔ (m.topology ≠ .triangle ∨ m.attr? k = none) := by
+  unfold weld
+  split
+  · split <;> simp_all
+  · simp_all
 
 /-! ## Attribute transforms: exactly one attribute changes, by the stated function
 
